@@ -665,6 +665,11 @@ def model_next(m, it, sp, item_ty=None):
         ended = getattr(m, "iter_ended", None)
         if ended is None:
             ended = m.iter_ended = {}
+        if ended.get(st["tag"]):
+            # polled again after it returned None: a non-fused iterator may yield further items here,
+            # which `for` (and an add loop) would never see — recorded for R-FORWARD
+            m.notes.append(("poll-after-none", sp, st["tag"], m.stack[-1] if m.stack else None))
+            return None
         if st["count"] >= m.cfg.max_items:
             ended[st["tag"]] = True
             return None
@@ -2301,3 +2306,129 @@ def borrow_borrow(m, ref, args, t, sp):
 BY_TRAIT[("core::borrow::Borrow", "borrow")] = borrow_borrow
 BY_TRAIT[("core::borrow::BorrowMut", "borrow_mut")] = borrow_borrow
 BY_TRAIT[("core::convert::AsRef", "as_ref")] = borrow_borrow
+
+
+# ---- bit-pattern sort keys: decided on concrete witnesses ------------------------------------
+def f64_to_bits(m, ref, args, t, sp):
+    v = load(m, args[0])
+    if is_float(v) and F.is_lit(v):
+        return v[1]
+    return VOpaque("int", m.new_name("bits(%s)" % (F.show(v)[:40] if is_float(v) else "?")))
+
+
+def f64_from_bits(m, ref, args, t, sp):
+    v = simp(args[0])
+    if isinstance(v, int) and 0 <= v < 2**64:
+        return ("lit", v)
+    return ("opq", m.new_name("from_bits"))
+
+
+BY_NAME["core::f64::<impl f64>::to_bits"] = f64_to_bits
+BY_NAME["core::f64::<impl f64>::from_bits"] = f64_from_bits
+
+_WITNESS = [float("-inf"), -1e300, -2.0, -1.0, -0.5, -1e-300, -0.0, 0.0, 1e-300, 0.5, 1.0, 2.0, 1e300, float("inf")]
+
+
+def _witness_keys(m, key_of, sp):
+    """evaluate a key function on the witness values; None when some key is not a concrete number"""
+    out = []
+    for x in _WITNESS:
+        n_tr = len(m.trace)
+        try:
+            k = key_of(F.lit(x))
+        except (PathEnd, Infeasible, Unsupported):
+            return None
+        if len(m.trace) != n_tr:
+            return None
+        k = load(m, k)
+        if isinstance(k, VStruct) and k.path.endswith("FloatOrd") and k.fields:
+            k = k.fields[0]
+        if is_float(k) and F.is_lit(k):
+            k = F.litval(k)
+        else:
+            k = simp(k) if is_int(k) else k
+        if not isinstance(k, (int, float)) or isinstance(k, bool) or k != k:
+            return None
+        out.append(k)
+    return out
+
+
+def _monotone_witness(keys):
+    """first pair of witnesses a < b that the key does not order a before b, or None (numerically
+    equal witnesses, -0.0 and +0.0, may be keyed either way)"""
+    for i in range(len(_WITNESS)):
+        for j in range(i + 1, len(_WITNESS)):
+            a, b = _WITNESS[i], _WITNESS[j]
+            if a < b and not keys[i] < keys[j]:
+                return (a, b, keys[i], keys[j])
+    return None
+
+
+_slice_sort_by_key_0 = slice_sort_by_key
+
+
+def slice_sort_by_key(m, ref, args, t, sp):
+    try:
+        return _slice_sort_by_key_0(m, ref, args, t, sp)
+    except Unsupported as e:
+        if "not the value itself" not in str(e):
+            raise
+        clo = args[1]
+
+        def key_of(lit):
+            return m.call_closure(clo, [VRef(Cell(lit), (), False)], sp)
+        keys = _witness_keys(m, key_of, sp)
+        if keys is None:
+            raise
+        bad = _monotone_witness(keys)
+        if bad is not None:
+            m.notes.append(("sort-order-witness", sp, "key(%r) = %r is not below key(%r) = %r" % (bad[0], bad[2], bad[1], bad[3]),
+                            m.stack[-1] if m.stack else None))
+            raise Unsupported("sort key is not monotone: key(%r) = %r, key(%r) = %r" % (bad[0], bad[2], bad[1], bad[3]))
+        # monotone on every witness (both signs, zeros, subnormal-scale, huge, infinities): taken as the numeric order
+        els, _ = slice_elems(m, args[0])
+        src = [m.read_loc(c, p) for c, p in els]
+        if _maybe_nan(m, src):
+            raise Unsupported("sort_by_key with elements that may be NaN")
+        if all(F.is_lit(x) for x in src):
+            vals = sorted(src, key=lambda x: F.litval(x))
+            for (c, p), v in zip(els, vals):
+                m.write_loc(c, p, v, sp)
+            return UNIT
+        return _sorted_model(m, els, src, sp)
+
+
+_slice_sort_by_0 = slice_sort_by
+
+
+def slice_sort_by(m, ref, args, t, sp):
+    try:
+        return _slice_sort_by_0(m, ref, args, t, sp)
+    except Unsupported as e:
+        if "not recognised as the ascending numeric order" not in str(e):
+            raise
+        clo = args[1]
+        # concrete witnesses: adjacent pairs of the witness list
+        for i in range(len(_WITNESS) - 1):
+            a, b = _WITNESS[i], _WITNESS[i + 1]
+            if not a < b:
+                continue
+            n_tr = len(m.trace)
+            try:
+                r = m.call_closure(clo, [VRef(Cell(F.lit(a)), (), False), VRef(Cell(F.lit(b)), (), False)], sp)
+            except (PathEnd, Infeasible, Unsupported):
+                raise e
+            k = _ord_k(m, r)
+            if k is None or len(m.trace) != n_tr:
+                raise e
+            if k != -1:
+                m.notes.append(("sort-order-witness", sp, "the comparator does not order %r before %r" % (a, b), m.stack[-1] if m.stack else None))
+                raise Unsupported("comparator does not order %r before %r" % (a, b))
+        raise e
+
+
+for _p in ("core::slice::<impl [T]>::", "alloc::slice::<impl [T]>::", "std::slice::<impl [T]>::"):
+    for _n in ("sort_by", "sort_unstable_by"):
+        BY_NAME[_p + _n] = slice_sort_by
+    for _n in ("sort_by_key", "sort_unstable_by_key", "sort_by_cached_key"):
+        BY_NAME[_p + _n] = slice_sort_by_key
